@@ -1,11 +1,951 @@
-// Package c14 is the correspondence/oracle harness for property C14.
+// Package c14: chunk exports parse back to the same chunks; filters are exact selections.
 package c14
 
-import "verifharness/hx"
+import (
+	"bytes"
+	"encoding/csv"
+	"encoding/json"
+	"fmt"
+	"strconv"
+	"strings"
+	"unicode"
+
+	"github.com/tsawler/tabula/rag"
+
+	"verifharness/hx"
+)
 
 func init() { hx.Register("C14", Run, Replay) }
 
-// Run is not built yet for this property.
-func Run(c *hx.Ctx) { c.Note("C14: harness not built") }
+type caseID struct {
+	Seed  uint64 `json:"seed"`
+	Index int    `json:"index"`
+	What  string `json:"what,omitempty"`
+	Key   string `json:"key,omitempty"`
+}
 
-func Replay(c *hx.Ctx, kase map[string]interface{}) {}
+// onlyKey is set by Replay: only the recorded failure class is re-checked, so that the
+// replay output is about that failure and not about other (e.g. known) ones of the same case.
+var onlyKey string
+
+func chk(c *hx.Ctx, key string, ok bool, kase caseID, detail func() string) bool {
+	if onlyKey != "" && key != onlyKey {
+		return ok
+	}
+	kase.Key = key
+	return c.Check(key, ok, kase, detail)
+}
+
+// ---- canonical dump of parsed JSON records (implementation side of c14.json) ---------
+
+func dumpJSONVal(v interface{}) string {
+	switch x := v.(type) {
+	case string:
+		return "s" + hx.HexS(x)
+	case json.Number:
+		return "i" + x.String()
+	case bool:
+		if x {
+			return "b1"
+		}
+		return "b0"
+	case []interface{}:
+		parts := make([]string, len(x))
+		for i, e := range x {
+			s, _ := e.(string)
+			parts[i] = hx.HexS(s)
+		}
+		return "l" + strings.Join(parts, "+")
+	}
+	return "?"
+}
+
+func str(v interface{}) string { s, _ := v.(string); return s }
+func num(v interface{}) string {
+	if n, ok := v.(json.Number); ok {
+		return n.String()
+	}
+	return "0"
+}
+func flag(v interface{}) string { b, _ := v.(bool); return b01(b) }
+
+func dumpJSONRecord(rec map[string]interface{}) string {
+	meta := "~"
+	if md, ok := rec["metadata"].(map[string]interface{}); ok && len(md) > 0 {
+		var parts []string
+		for _, k := range hx.SortedKeys(md) {
+			parts = append(parts, hx.HexS(k)+":"+dumpJSONVal(md[k]))
+		}
+		meta = strings.Join(parts, ",")
+	}
+	path := "~"
+	if p, ok := rec["section_path"].([]interface{}); ok && len(p) > 0 {
+		parts := make([]string, len(p))
+		for i, e := range p {
+			parts[i] = hx.HexS(str(e))
+		}
+		path = strings.Join(parts, ",")
+	}
+	return strings.Join([]string{hx.HexS(str(rec["id"])), hx.HexS(str(rec["text"])), meta, hx.HexS(str(rec["document_title"])),
+		num(rec["page_start"]), num(rec["page_end"]), num(rec["chunk_index"]), hx.HexS(str(rec["section_title"])), path,
+		flag(rec["has_table"]) + flag(rec["has_list"]) + flag(rec["has_image"])}, "|")
+}
+
+func dumpJSONRecords(recs []map[string]interface{}) string {
+	if len(recs) == 0 {
+		return "none"
+	}
+	parts := make([]string, len(recs))
+	for i, r := range recs {
+		parts[i] = dumpJSONRecord(r)
+	}
+	return strings.Join(parts, ";")
+}
+
+func dumpTypedMap(m map[string]interface{}) string {
+	if len(m) == 0 {
+		return "~"
+	}
+	var parts []string
+	for _, k := range hx.SortedKeys(m) {
+		var v string
+		switch x := m[k].(type) {
+		case string:
+			v = "s" + hx.HexS(x)
+		case int:
+			v = "i" + strconv.Itoa(x)
+		case bool:
+			v = "b" + b01(x)
+		case []string:
+			hs := make([]string, len(x))
+			for i, e := range x {
+				hs[i] = hx.HexS(e)
+			}
+			v = "l" + strings.Join(hs, "+")
+		default:
+			v = "o"
+		}
+		parts = append(parts, hx.HexS(k)+":"+v)
+	}
+	return strings.Join(parts, ",")
+}
+
+// ---- one export (any of the four formats) ----------------------------------------------
+
+func kindOf(f rag.ExportFormat) string { return formatName(f) }
+
+// checkExport runs the oracles for one export of `chunks` under `cfg` whose text is `out`,
+// and (emit=true) the correspondence ops for it.
+func checkExport(c *hx.Ctx, kase caseID, what string, cfg rag.ExportConfig, chunks []*rag.Chunk, out string, err error, emit bool) {
+	kase.What = what
+	kind := kindOf(cfg.Format)
+	g, cs := wireConfig(cfg), wireChunks(chunks)
+	okExport := chk(c, "C14/"+kind+"-export-error", err == nil, kase, func() string { return fmt.Sprintf("%s: export returned error: %v", what, err) })
+	switch cfg.Format {
+	case rag.ExportFormatJSON, rag.ExportFormatJSONL:
+		implDump := "err"
+		if okExport {
+			var recs []map[string]interface{}
+			var perr error
+			if cfg.Format == rag.ExportFormatJSON {
+				recs, perr = parseJSONArray(out)
+			} else {
+				recs, perr = parseJSONLines(out)
+			}
+			if chk(c, "C14/"+kind+"-wellformed", perr == nil, kase, func() string { return fmt.Sprintf("%s: %v in %q", what, perr, clip(out)) }) {
+				checkJSONRecords(c, kind, kase, recs, chunks, cfg)
+				implDump = dumpJSONRecords(recs)
+			}
+		}
+		if emit {
+			c.Op("c14.json "+g+" "+cs, implDump)
+		}
+	case rag.ExportFormatCSV, rag.ExportFormatTSV:
+		implRows, implText := "err", "err"
+		if okExport {
+			implText = "ok " + hx.HexS(out)
+			if recs, perr := readRFC4180([]byte(out), expectedDelim(cfg)); perr == nil {
+				implRows = wireRows(recs)
+			}
+			// determinism (map iteration must not leak into the output)
+			again, _ := rag.NewExporterWithConfig(cfg).ExportToString(chunks)
+			chk(c, "C14/"+kind+"-deterministic", again == out, kase, func() string { return what + ": two exports of the same collection differ" })
+			if cfg.IncludeHeader {
+				checkCSVWithHeader(c, kind, kase, out, chunks, cfg)
+			} else {
+				// headerless: must be the header-carrying export minus its first record
+				cfg2 := cfg
+				cfg2.IncludeHeader = true
+				out2, err2 := rag.NewExporterWithConfig(cfg2).ExportToString(chunks)
+				if chk(c, "C14/"+kind+"-export-error", err2 == nil, kase, func() string { return fmt.Sprint(err2) }) {
+					full, ok := checkCSVWithHeader(c, kind, kase, out2, chunks, cfg2)
+					recs, perr := readRFC4180([]byte(out), expectedDelim(cfg))
+					if chk(c, "C14/"+kind+"-wellformed", perr == nil, kase, func() string { return fmt.Sprintf("%s: %v in %q", what, perr, clip(out)) }) && ok {
+						chk(c, "C14/"+kind+"-headerless-rows", fmt.Sprint(recs) == fmt.Sprint(full[1:]) && len(recs) == len(chunks), kase, func() string {
+							return fmt.Sprintf("%s: headerless export has %d records and differs from the rows of the export with header", what, len(recs))
+						})
+					}
+				}
+			}
+		}
+		if emit {
+			c.Op("c14.csvcols "+g+" "+cs, wireRow(rag.VerifCollectCSVColumns(cfg, chunks)))
+			c.Op("c14.rows "+g+" "+cs, implRows)
+			c.Op("c14.export "+g+" "+cs, implText)
+		}
+	}
+}
+
+func export(cfg rag.ExportConfig, chunks []*rag.Chunk) (out string, err error) {
+	if p := hx.Safe(func() { out, err = rag.NewExporterWithConfig(cfg).ExportToString(chunks) }); p != "" {
+		return "", fmt.Errorf("panic: %s", p)
+	}
+	return
+}
+
+var allFormats = []rag.ExportFormat{rag.ExportFormatJSONL, rag.ExportFormatJSON, rag.ExportFormatCSV, rag.ExportFormatTSV}
+
+// ---- batches -------------------------------------------------------------------------------
+
+func checkBatches(c *hx.Ctx, kase caseID, r *hx.Rng, chunks []*rag.Chunk) {
+	kase.What = "batch"
+	n := len(chunks)
+	size := r.Range(1, n+2)
+	if r.Chance(1, 4) {
+		size = 1
+	}
+	cfg := genConfig(r, hx.Pick(r, allFormats))
+	var got []rag.ExportBatch
+	var err error
+	p := hx.Safe(func() {
+		err = rag.NewBatchExporterWithConfig(size, cfg).Export(chunks, func(b rag.ExportBatch) error { got = append(got, b); return nil })
+	})
+	if !chk(c, "C14/panic-batch", p == "", kase, func() string { return p }) {
+		return
+	}
+	if !chk(c, "C14/"+kindOf(cfg.Format)+"-export-error", err == nil, kase, func() string { return fmt.Sprintf("batch export (size %d): %v", size, err) }) {
+		// still emit the op so that the tie sees the difference
+		c.Op(fmt.Sprintf("c14.batch %d %d", size, n), "err")
+		return
+	}
+	okp := true
+	why := ""
+	next := 0
+	var parts []string
+	for k, b := range got {
+		cnt := b.EndIndex - b.StartIndex
+		if b.BatchNumber != k || b.StartIndex != next || b.ChunkCount != cnt || cnt < 1 || cnt > size || b.EndIndex > n {
+			okp, why = false, fmt.Sprintf("batch %d: %+v (size %d, %d chunks)", k, struct{ N, S, E, C int }{b.BatchNumber, b.StartIndex, b.EndIndex, b.ChunkCount}, size, n)
+			break
+		}
+		if k < len(got)-1 && cnt != size {
+			okp, why = false, fmt.Sprintf("batch %d of %d is short (%d < %d)", k, len(got), cnt, size)
+			break
+		}
+		next = b.EndIndex
+		idx := make([]string, 0, cnt)
+		for i := b.StartIndex; i < b.EndIndex; i++ {
+			idx = append(idx, strconv.Itoa(i))
+		}
+		parts = append(parts, fmt.Sprintf("%d:%d:%d:%d:%s", b.BatchNumber, b.StartIndex, b.EndIndex, b.ChunkCount, strings.Join(idx, "+")))
+	}
+	if okp && next != n {
+		okp, why = false, fmt.Sprintf("batches cover %d of %d chunks (size %d)", next, n, size)
+	}
+	chk(c, "C14/batch-partition", okp, kase, func() string { return why })
+	implOut := "none"
+	if len(parts) > 0 {
+		implOut = strings.Join(parts, ",")
+	}
+	if !okp {
+		implOut = "bad:" + strings.ReplaceAll(why, " ", "_")
+	}
+	c.Op(fmt.Sprintf("c14.batch %d %d", size, n), implOut)
+	if !okp {
+		return
+	}
+	// each batch's Data is a complete export of exactly its slice
+	for k, b := range got {
+		checkExport(c, kase, fmt.Sprintf("batch %d/%d size %d", k, len(got), size), cfg, chunks[b.StartIndex:b.EndIndex], b.Data, nil, k == 0)
+	}
+	c.Count(fmt.Sprintf("batches=%d", min(len(got), 5)))
+}
+
+// ---- stream ---------------------------------------------------------------------------------
+
+func checkStream(c *hx.Ctx, kase caseID, r *hx.Rng, chunks []*rag.Chunk) {
+	kase.What = "stream"
+	cfg := genConfig(r, hx.Pick(r, allFormats))
+	var buf bytes.Buffer
+	se := rag.NewStreamExporterWithConfig(&buf, cfg)
+	var firstErr error
+	for i, ch := range chunks {
+		if err := se.WriteChunk(ch, i); err != nil && firstErr == nil {
+			firstErr = err
+		}
+	}
+	se.Close()
+	g, cs := wireConfig(cfg), wireChunks(chunks)
+	if cfg.Format == rag.ExportFormatCSV || cfg.Format == rag.ExportFormatTSV {
+		// documented: not supported; nothing may be written silently
+		chk(c, "C14/stream-once", (firstErr != nil || len(chunks) == 0) && buf.Len() == 0, kase, func() string {
+			return fmt.Sprintf("CSV stream: err=%v, %d bytes written", firstErr, buf.Len())
+		})
+		out := "err"
+		if firstErr == nil {
+			out = "ok none"
+		}
+		c.Op("c14.stream "+g+" "+cs, out)
+		return
+	}
+	if !chk(c, "C14/stream-once", firstErr == nil, kase, func() string { return fmt.Sprint(firstErr) }) {
+		c.Op("c14.stream "+g+" "+cs, "err")
+		return
+	}
+	recs, perr := parseJSONLines(buf.String())
+	implDump := "err"
+	if chk(c, "C14/stream-wellformed", perr == nil, kase, func() string { return fmt.Sprintf("%v in %q", perr, clip(buf.String())) }) {
+		checkJSONRecords(c, "stream", kase, recs, chunks, cfg)
+		implDump = "ok " + dumpJSONRecords(recs)
+	}
+	c.Op("c14.stream "+g+" "+cs, implDump)
+}
+
+// ---- vector database records -------------------------------------------------------------
+
+func genEmbeddings(r *hx.Rng, n int) [][]float64 {
+	switch r.Intn(5) {
+	case 0:
+		return nil
+	case 1:
+		if n > 0 {
+			n--
+		}
+	}
+	dim := r.Range(1, 4)
+	out := make([][]float64, n)
+	for i := range out {
+		if r.Chance(1, 5) {
+			continue // no embedding for this chunk
+		}
+		v := make([]float64, dim)
+		for j := range v {
+			v[j] = float64(r.Range(-4096, 4096)) / 64
+		}
+		out[i] = v
+	}
+	return out
+}
+
+func floatsEqual(got interface{}, want []float64) bool {
+	g, ok := got.([]interface{})
+	if !ok {
+		return got == nil && len(want) == 0
+	}
+	if len(g) != len(want) {
+		return false
+	}
+	for i := range g {
+		n, ok := g[i].(json.Number)
+		if !ok {
+			return false
+		}
+		f, err := n.Float64()
+		if err != nil || f != want[i] {
+			return false
+		}
+	}
+	return true
+}
+
+func asObj(v interface{}) map[string]interface{} { m, _ := v.(map[string]interface{}); return m }
+
+func checkVectorDB(c *hx.Ctx, kase caseID, r *hx.Rng, chunks []*rag.Chunk) {
+	emb := genEmbeddings(r, len(chunks))
+	embOf := func(i int) []float64 {
+		if i < len(emb) {
+			return emb[i]
+		}
+		return nil
+	}
+	ee := rag.NewEmbeddingExporter()
+	metaOK := func(obj map[string]interface{}, ch *rag.Chunk, keys map[string]string) (bool, string) {
+		for jsonKey, field := range keys {
+			got, has := obj[jsonKey]
+			if !has || !jsonValueEquals(got, srcValue(ch, field)) {
+				return false, fmt.Sprintf("%s=%#v want %#v", jsonKey, got, srcValue(ch, field))
+			}
+		}
+		return true, ""
+	}
+
+	// Pinecone: {"vectors":[{id,values,metadata{text,document_title,page_start,section_title}}]}, one per chunk that has a vector
+	{
+		kase.What = "pinecone"
+		var buf bytes.Buffer
+		var err error
+		p := hx.Safe(func() { err = ee.ExportForPinecone(chunks, emb, &buf) })
+		var doc map[string]interface{}
+		if chk(c, "C14/panic-pinecone", p == "", kase, func() string { return p }) &&
+			chk(c, "C14/pinecone-wellformed", err == nil && decodeOne(buf.Bytes(), &doc) == nil, kase, func() string { return fmt.Sprintf("err=%v out=%q", err, clip(buf.String())) }) {
+			vecs, isArr := doc["vectors"].([]interface{})
+			var want []int
+			for i := range chunks {
+				if len(embOf(i)) > 0 {
+					want = append(want, i)
+				}
+			}
+			if chk(c, "C14/pinecone-record-count", isArr && len(vecs) == len(want), kase, func() string {
+				return fmt.Sprintf("%d vectors for %d chunks with embeddings", len(vecs), len(want))
+			}) {
+				for k, i := range want {
+					rec := asObj(vecs[k])
+					md := asObj(rec["metadata"])
+					chk(c, "C14/pinecone-field-id", jsonValueEquals(rec["id"], chunks[i].ID), kase, func() string { return fmt.Sprintf("vector %d id=%#v want %q", k, rec["id"], chunks[i].ID) })
+					chk(c, "C14/pinecone-field-text", jsonValueEquals(md["text"], chunks[i].Text), kase, func() string { return fmt.Sprintf("vector %d text=%#v want %q", k, md["text"], chunks[i].Text) })
+					ok, why := metaOK(md, chunks[i], map[string]string{"document_title": "document_title", "page_start": "page_start", "section_title": "section_title"})
+					chk(c, "C14/pinecone-field-meta", ok, kase, func() string { return fmt.Sprintf("vector %d %s", k, why) })
+					chk(c, "C14/pinecone-field-values", floatsEqual(rec["values"], embOf(i)), kase, func() string { return fmt.Sprintf("vector %d values=%v want %v", k, rec["values"], embOf(i)) })
+				}
+			}
+		}
+	}
+	// Chroma: parallel arrays ids/documents/metadatas
+	{
+		kase.What = "chroma"
+		var buf bytes.Buffer
+		var err error
+		p := hx.Safe(func() { err = ee.ExportForChroma(chunks, emb, &buf) })
+		var doc map[string]interface{}
+		if chk(c, "C14/panic-chroma", p == "", kase, func() string { return p }) &&
+			chk(c, "C14/chroma-wellformed", err == nil && decodeOne(buf.Bytes(), &doc) == nil, kase, func() string { return fmt.Sprintf("err=%v out=%q", err, clip(buf.String())) }) {
+			ids, _ := doc["ids"].([]interface{})
+			docs, _ := doc["documents"].([]interface{})
+			mds, _ := doc["metadatas"].([]interface{})
+			if chk(c, "C14/chroma-record-count", len(ids) == len(chunks) && len(docs) == len(chunks) && len(mds) == len(chunks), kase, func() string {
+				return fmt.Sprintf("ids/documents/metadatas have %d/%d/%d entries for %d chunks", len(ids), len(docs), len(mds), len(chunks))
+			}) {
+				for i, ch := range chunks {
+					chk(c, "C14/chroma-field-id", jsonValueEquals(ids[i], ch.ID), kase, func() string { return fmt.Sprintf("ids[%d]=%#v want %q", i, ids[i], ch.ID) })
+					chk(c, "C14/chroma-field-text", jsonValueEquals(docs[i], ch.Text), kase, func() string { return fmt.Sprintf("documents[%d]=%#v want %q", i, docs[i], ch.Text) })
+					ok, why := metaOK(asObj(mds[i]), ch, map[string]string{"document_title": "document_title", "page_start": "page_start", "section_title": "section_title", "chunk_index": "chunk_index"})
+					chk(c, "C14/chroma-field-meta", ok, kase, func() string { return fmt.Sprintf("metadatas[%d] %s", i, why) })
+				}
+			}
+			if embs, ok := doc["embeddings"].([]interface{}); ok {
+				same := len(embs) == len(emb)
+				for i := 0; same && i < len(emb); i++ {
+					same = floatsEqual(embs[i], emb[i])
+				}
+				chk(c, "C14/chroma-field-values", same, kase, func() string { return "embeddings array differs from the vectors passed in" })
+			}
+		}
+	}
+	// Weaviate: JSON Lines, one object per chunk
+	{
+		kase.What = "weaviate"
+		class := hx.Pick(r, []string{"Chunk", "Doc \"x\"", "日本"})
+		var buf bytes.Buffer
+		var err error
+		p := hx.Safe(func() { err = ee.ExportForWeaviate(chunks, emb, class, &buf) })
+		if chk(c, "C14/panic-weaviate", p == "", kase, func() string { return p }) {
+			recs, perr := parseJSONLines(buf.String())
+			if chk(c, "C14/weaviate-wellformed", err == nil && perr == nil, kase, func() string { return fmt.Sprintf("err=%v parse=%v out=%q", err, perr, clip(buf.String())) }) &&
+				chk(c, "C14/weaviate-record-count", len(recs) == len(chunks), kase, func() string { return fmt.Sprintf("%d objects for %d chunks", len(recs), len(chunks)) }) {
+				for i, ch := range chunks {
+					rec := recs[i]
+					props := asObj(rec["properties"])
+					chk(c, "C14/weaviate-field-id", jsonFieldOK(rec, "id", ch.ID) && jsonValueEquals(rec["class"], class), kase, func() string { return fmt.Sprintf("object %d id=%#v class=%#v", i, rec["id"], rec["class"]) })
+					chk(c, "C14/weaviate-field-text", jsonValueEquals(props["content"], ch.Text), kase, func() string { return fmt.Sprintf("object %d content=%#v want %q", i, props["content"], ch.Text) })
+					ok, why := metaOK(props, ch, map[string]string{"documentTitle": "document_title", "pageStart": "page_start", "sectionTitle": "section_title", "chunkIndex": "chunk_index"})
+					chk(c, "C14/weaviate-field-meta", ok, kase, func() string { return fmt.Sprintf("object %d %s", i, why) })
+					chk(c, "C14/weaviate-field-values", floatsEqual(rec["vector"], embOf(i)), kase, func() string { return fmt.Sprintf("object %d vector=%v want %v", i, rec["vector"], embOf(i)) })
+				}
+			}
+		}
+	}
+}
+
+// ---- filters ---------------------------------------------------------------------------------
+
+type fop struct {
+	kind string
+	s    string
+	a, b int
+}
+
+func (f fop) wire() string {
+	switch f.kind {
+	case "sec", "etype", "search":
+		return f.kind + ":" + hx.HexS(f.s)
+	case "page", "min", "max":
+		return fmt.Sprintf("%s:%d", f.kind, f.a)
+	case "range":
+		return fmt.Sprintf("range:%d:%d", f.a, f.b)
+	}
+	return f.kind
+}
+
+func (f fop) apply(cc *rag.ChunkCollection) *rag.ChunkCollection {
+	switch f.kind {
+	case "sec":
+		return cc.FilterBySection(f.s)
+	case "page":
+		return cc.FilterByPage(f.a)
+	case "range":
+		return cc.FilterByPageRange(f.a, f.b)
+	case "etype":
+		return cc.FilterByElementType(f.s)
+	case "tables":
+		return cc.FilterWithTables()
+	case "lists":
+		return cc.FilterWithLists()
+	case "images":
+		return cc.FilterWithImages()
+	case "min":
+		return cc.FilterByMinTokens(f.a)
+	case "max":
+		return cc.FilterByMaxTokens(f.a)
+	case "search":
+		return cc.Search(f.s)
+	}
+	return cc
+}
+
+// holds is the predicate as the documentation of each method states it.
+func (f fop) holds(ch *rag.Chunk) bool {
+	m := ch.Metadata
+	switch f.kind {
+	case "sec": // "chunks in a specific section": the section itself or any enclosing section of the path
+		if m.SectionTitle == f.s {
+			return true
+		}
+		for _, s := range m.SectionPath {
+			if s == f.s {
+				return true
+			}
+		}
+		return false
+	case "page":
+		return m.PageStart <= f.a && f.a <= m.PageEnd
+	case "range":
+		return m.PageStart <= f.b && m.PageEnd >= f.a
+	case "etype":
+		for _, et := range m.ElementTypes {
+			if equalFoldASCII(et, f.s) {
+				return true
+			}
+		}
+		return false
+	case "tables":
+		return m.HasTable
+	case "lists":
+		return m.HasList
+	case "images":
+		return m.HasImage
+	case "min":
+		return m.EstimatedTokens >= f.a
+	case "max":
+		return m.EstimatedTokens <= f.a
+	case "search":
+		return containsFold(ch.Text, f.s)
+	}
+	return true
+}
+
+func toggleCase(r *hx.Rng, s string) string {
+	rs := []rune(s)
+	for i, x := range rs {
+		if r.Bool() {
+			if unicode.IsUpper(x) {
+				rs[i] = unicode.ToLower(x)
+			} else if unicode.IsLower(x) && unicode.ToLower(unicode.ToUpper(x)) == x {
+				rs[i] = unicode.ToUpper(x)
+			}
+		}
+	}
+	return string(rs)
+}
+
+func genFop(r *hx.Rng, chunks []*rag.Chunk) fop {
+	var some *rag.Chunk
+	if len(chunks) > 0 {
+		some = hx.Pick(r, chunks)
+	}
+	switch r.Intn(10) {
+	case 0:
+		s := hx.Pick(r, tameSections)
+		if some != nil && r.Chance(2, 3) {
+			s = some.Metadata.SectionTitle
+			if len(some.Metadata.SectionPath) > 0 && r.Bool() {
+				s = hx.Pick(r, some.Metadata.SectionPath)
+			}
+		}
+		return fop{kind: "sec", s: s}
+	case 1:
+		return fop{kind: "page", a: r.Range(-1, 8)}
+	case 2:
+		a := r.Range(-1, 7)
+		return fop{kind: "range", a: a, b: a + r.Range(-1, 4)}
+	case 3:
+		return fop{kind: "etype", s: toggleCase(r, hx.Pick(r, elementTypes))}
+	case 4:
+		return fop{kind: "tables"}
+	case 5:
+		return fop{kind: "lists"}
+	case 6:
+		return fop{kind: "images"}
+	case 7:
+		return fop{kind: "min", a: r.Range(-1, 12)}
+	case 8:
+		return fop{kind: "max", a: r.Range(-1, 12)}
+	}
+	kw := hx.Pick(r, frags)
+	if some != nil && r.Chance(2, 3) {
+		rs := []rune(some.Text)
+		if len(rs) > 0 {
+			i := r.Intn(len(rs))
+			j := i + r.Range(1, 4)
+			if j > len(rs) {
+				j = len(rs)
+			}
+			kw = toggleCase(r, string(rs[i:j]))
+		}
+	}
+	if r.Chance(1, 15) {
+		kw = ""
+	}
+	return fop{kind: "search", s: kw}
+}
+
+func checkFilters(c *hx.Ctx, kase caseID, r *hx.Rng, chunks []*rag.Chunk) {
+	kase.What = "filter"
+	for rep := 0; rep < 4; rep++ {
+		nops := 1
+		if rep >= 2 {
+			nops = r.Range(2, 4)
+		}
+		var chain []fop
+		for i := 0; i < nops; i++ {
+			chain = append(chain, genFop(r, chunks))
+		}
+		cc := rag.NewChunkCollection(chunks)
+		p := hx.Safe(func() {
+			for _, f := range chain {
+				cc = f.apply(cc)
+			}
+		})
+		if !chk(c, "C14/panic-filter", p == "", kase, func() string { return p }) {
+			continue
+		}
+		var want []*rag.Chunk
+		for _, ch := range chunks {
+			all := true
+			for _, f := range chain {
+				if !f.holds(ch) {
+					all = false
+				}
+			}
+			if all {
+				want = append(want, ch)
+			}
+		}
+		got := cc.ToSlice()
+		same := len(got) == len(want)
+		for i := 0; same && i < len(got); i++ {
+			same = got[i] == want[i] // pointer identity: the very chunks, in order
+		}
+		var ws []string
+		lower := map[string]string{}
+		for _, f := range chain {
+			ws = append(ws, f.wire())
+			if f.kind == "search" {
+				lower[f.s] = strings.ToLower(f.s)
+				for _, ch := range chunks {
+					lower[ch.Text] = strings.ToLower(ch.Text)
+				}
+			}
+		}
+		chk(c, "C14/filter-exact", same, caseID{Seed: kase.Seed, Index: kase.Index, What: "filter " + strings.Join(ws, "+")}, func() string {
+			return fmt.Sprintf("chain %s returned %d chunks %v, the predicate holds for %d %v", strings.Join(ws, "+"), len(got), idsOf(got), len(want), idsOf(want))
+		})
+		var lt []string
+		for _, k := range hx.SortedKeys(lower) {
+			lt = append(lt, hx.HexS(k)+">"+hx.HexS(lower[k]))
+		}
+		out := "none"
+		if len(got) > 0 {
+			out = hx.HexList(idsOf(got))
+		}
+		c.Op("c14.filt f="+strings.Join(ws, "+")+" L="+strings.Join(lt, ",")+" "+wireChunks(chunks), out)
+		c.Count("filter-" + chain[0].kind)
+	}
+	// the generic Filter with an arbitrary predicate, and the empty result
+	pick := map[*rag.Chunk]bool{}
+	for _, ch := range chunks {
+		if r.Bool() {
+			pick[ch] = true
+		}
+	}
+	got := rag.NewChunkCollection(chunks).Filter(func(ch *rag.Chunk) bool { return pick[ch] }).ToSlice()
+	k := 0
+	same := true
+	for _, ch := range chunks {
+		if pick[ch] {
+			if k >= len(got) || got[k] != ch {
+				same = false
+			}
+			k++
+		}
+	}
+	chk(c, "C14/filter-exact", same && k == len(got), kase, func() string {
+		return fmt.Sprintf("Filter(arbitrary predicate) returned %v, predicate holds for %d chunks", idsOf(got), k)
+	})
+}
+
+func idsOf(cs []*rag.Chunk) []string {
+	out := make([]string, len(cs))
+	for i, c := range cs {
+		out[i] = c.ID
+	}
+	return out
+}
+
+// ---- the assumed stdlib contract and the small helpers -----------------------------------
+
+func genCell(r *hx.Rng) string {
+	if r.Chance(1, 6) {
+		return ""
+	}
+	if r.Chance(1, 8) {
+		return hx.Pick(r, []string{"\\.", " x", "\u00a0x", "\u0085", "\u2003a", "\u3000", "\xc2", "\xe2\x80", "\t", "\v", "\"", "\r", "\n", "\r\n", "a\rb", "\xff"})
+	}
+	return advString(r, 3)
+}
+
+func checkStdlibCSV(c *hx.Ctx, kase caseID, r *hx.Rng) {
+	kase.What = "csv-contract"
+	delim := hx.Pick(r, []rune{',', '\t', ';', '|'})
+	nrows := r.Range(0, 4)
+	rows := make([][]string, nrows)
+	for i := range rows {
+		ncells := r.Range(1, 4)
+		rows[i] = make([]string, ncells)
+		for j := range rows[i] {
+			rows[i][j] = genCell(r)
+		}
+	}
+	var buf bytes.Buffer
+	w := csv.NewWriter(&buf)
+	w.Comma = delim
+	for _, row := range rows {
+		w.Write(row)
+	}
+	w.Flush()
+	var rw []string
+	for _, row := range rows {
+		rw = append(rw, wireRow(row))
+	}
+	// what encoding/csv really writes vs the model's writer (the assumption of csv_roundtrip)
+	c.Op(fmt.Sprintf("c14.csv %d r=%s", delim, strings.Join(rw, ";")), hx.Hex(buf.Bytes()))
+	// and the harness reader inverts it
+	back, err := readRFC4180(buf.Bytes(), byte(delim))
+	chk(c, "C14/csv-contract-roundtrip", err == nil && fmt.Sprintf("%q", back) == fmt.Sprintf("%q", rows) && len(back) == len(rows), kase, func() string {
+		return fmt.Sprintf("rows %q written as %q read back as %q (%v)", rows, buf.String(), back, err)
+	})
+	// harness reader vs model reader, on the written text and on a damaged copy
+	data := append([]byte(nil), buf.Bytes()...)
+	if r.Bool() && len(data) > 0 {
+		for k := r.Range(1, 3); k > 0; k-- {
+			pos := r.Intn(len(data))
+			switch r.Intn(3) {
+			case 0:
+				data[pos] = hx.Pick(r, []byte{'"', '\r', '\n', byte(delim), 'x'})
+			case 1:
+				data = append(data[:pos], data[pos+1:]...)
+			default:
+				data = append(data[:pos], append([]byte{hx.Pick(r, []byte{'"', '\r', '\n', byte(delim)})}, data[pos:]...)...)
+			}
+			if len(data) == 0 {
+				break
+			}
+		}
+	}
+	recs, rerr := readRFC4180(data, byte(delim))
+	out := "err"
+	if rerr == nil {
+		out = wireRows(recs)
+	}
+	c.Op(fmt.Sprintf("c14.csvread %d %s", delim, hx.Hex(data)), out)
+}
+
+func genNested(r *hx.Rng, depth int) (map[string]interface{}, []string) {
+	m := map[string]interface{}{}
+	n := r.Range(0, 3)
+	toks := []string{}
+	keys := []string{"a", "b", "key", "title", "x y", "é"}
+	hx.Shuffle(r, keys)
+	for i := 0; i < n; i++ {
+		k := keys[i]
+		var vt []string
+		switch r.Intn(5) {
+		case 0:
+			if depth < 3 {
+				sub, st := genNested(r, depth+1)
+				m[k] = sub
+				vt = st
+				break
+			}
+			fallthrough
+		case 1:
+			s := advString(r, 2)
+			m[k] = s
+			vt = []string{"s" + hx.HexS(s)}
+		case 2:
+			v := r.Range(-5, 1<<20)
+			m[k] = v
+			vt = []string{"i" + strconv.Itoa(v)}
+		case 3:
+			b := r.Bool()
+			m[k] = b
+			vt = []string{"b" + b01(b)}
+		default:
+			var l []string
+			for j := r.Intn(3); j > 0; j-- {
+				l = append(l, advString(r, 2))
+			}
+			m[k] = l
+			hs := make([]string, len(l))
+			for j, e := range l {
+				hs[j] = hx.HexS(e)
+			}
+			vt = []string{"l" + strings.Join(hs, "+")}
+		}
+		toks = append(toks, hx.HexS(k))
+		toks = append(toks, vt...)
+	}
+	return m, append([]string{"o" + strconv.Itoa(n)}, toks...)
+}
+
+func dumpFlat(m map[string]interface{}) string {
+	flat := map[string]interface{}{}
+	for k, v := range m {
+		if l, ok := v.([]string); ok && l == nil {
+			v = []string{}
+		}
+		flat[k] = v
+	}
+	return dumpTypedMap(flat)
+}
+
+func checkHelpers(c *hx.Ctx, r *hx.Rng, chunks []*rag.Chunk) {
+	for _, ch := range chunks {
+		if r.Chance(1, 2) {
+			c.Op("c14.meta2map "+wireChunk(ch), dumpTypedMap(rag.VerifChunkMetadataToMap(ch.Metadata)))
+		}
+	}
+	// formatValue on the value types a metadata map holds
+	var v interface{}
+	var w string
+	switch r.Intn(4) {
+	case 0:
+		s := advString(r, 3)
+		v, w = s, "s"+hx.HexS(s)
+	case 1:
+		n := hx.Pick(r, []int{0, -1, 7, 1 << 40, -(1 << 62), r.Range(-1000, 1000)})
+		v, w = n, "i"+strconv.Itoa(n)
+	case 2:
+		b := r.Bool()
+		v, w = b, "b"+b01(b)
+	default:
+		var l []string
+		for j := r.Range(1, 3); j > 0; j-- {
+			l = append(l, advString(r, 2))
+		}
+		hs := make([]string, len(l))
+		for j, e := range l {
+			hs[j] = hx.HexS(e)
+		}
+		v, w = l, "l"+strings.Join(hs, "+")
+	}
+	c.Op("c14.fmtval "+w, hx.HexS(rag.VerifFormatValue(v)))
+	// flattenMetadata on nested maps with dot-free keys (no two paths collide)
+	m, toks := genNested(r, 0)
+	c.Op("c14.flatten "+strings.Join(toks, ","), dumpFlat(rag.VerifFlattenMetadata(m, "")))
+}
+
+// ---- driver ----------------------------------------------------------------------------------
+
+// RunCase generates collection #idx of the seed's stream and checks every export of it.
+func RunCase(c *hx.Ctx, idx int) {
+	r := c.Rng.Fork(uint64(idx))
+	kase := caseID{Seed: c.Seed, Index: idx}
+	chunks := genChunks(r)
+	cc := rag.NewChunkCollection(chunks)
+
+	// the four collection-level shorthands, with the configuration each documents
+	type short struct {
+		name string
+		f    func() (string, error)
+		cfg  rag.ExportConfig
+	}
+	jcfg := rag.DefaultExportConfig()
+	jcfg.Format, jcfg.PrettyPrint = rag.ExportFormatJSON, true
+	for _, s := range []short{{"ToJSON", cc.ToJSON, jcfg}, {"ToJSONL", cc.ToJSONL, rag.JSONLExportConfig()},
+		{"ToCSV", cc.ToCSV, rag.CSVExportConfig()}, {"ToTSV", cc.ToTSV, rag.TSVExportConfig()}} {
+		var out string
+		var err error
+		if p := hx.Safe(func() { out, err = s.f() }); p != "" {
+			err = fmt.Errorf("panic: %s", p)
+		}
+		checkExport(c, kase, s.name, s.cfg, chunks, out, err, true)
+	}
+	// every format under drawn configurations
+	for _, f := range allFormats {
+		for k := 0; k < 2; k++ {
+			cfg := genConfig(r, f)
+			out, err := export(cfg, chunks)
+			checkExport(c, kase, "ExportToString "+wireConfig(cfg), cfg, chunks, out, err, true)
+			c.Count("format-" + formatName(f))
+			if cfg.MetadataFields != nil {
+				c.Count("metadata-fields-list")
+			}
+		}
+	}
+	checkBatches(c, kase, r, chunks)
+	checkStream(c, kase, r, chunks)
+	checkVectorDB(c, kase, r, chunks)
+	checkFilters(c, kase, r, chunks)
+	checkStdlibCSV(c, kase, r)
+	checkHelpers(c, r, chunks)
+
+	adversarial := false
+	for _, ch := range chunks {
+		if strings.ContainsAny(ch.Text+ch.Metadata.SectionTitle+ch.Metadata.DocumentTitle, ",\t\"\r\n\x00") {
+			adversarial = true
+		}
+	}
+	if adversarial {
+		c.Count("collections-with-delimiter/quote/newline/NUL")
+	}
+	c.Count(fmt.Sprintf("chunks=%d", min(len(chunks), 8)))
+	c.Case(wireChunks(chunks), len(chunks) > 0)
+}
+
+func Run(c *hx.Ctx) {
+	c.Rep.Rule = "collections of 0–20 chunks whose ids, texts, titles, section names/paths, parent/child ids are concatenations of adversarial fragments (comma, tab, quotes, CR, LF, CRLF, NUL, control bytes, emoji, CJK, NBSP/NEL, JSON look-alikes, backslash-dot), valid UTF-8; every collection is exported by ToJSON/ToJSONL/ToCSV/ToTSV, by Exporter.ExportToString under 2 drawn configurations per format (library constructors + toggles of IncludeMetadata, MetadataFields nil/empty/subsets/unknown names, IncludeText, IncludeEmbeddings, FlattenMetadata, IncludeHeader, PrettyPrint, column names, delimiter), by BatchExporter (size 1..n+2), StreamExporter, Pinecone/Chroma/Weaviate with dyadic embeddings, and filtered by 4 drawn filters/chains + an arbitrary predicate; non-trivial = at least one chunk; distinct by canonical collection"
+	n := c.N(1200, 12000)
+	for i := 0; i < n; i++ {
+		RunCase(c, i)
+	}
+}
+
+// Replay re-runs one recorded failing case on the implementation.
+func Replay(c *hx.Ctx, kase map[string]interface{}) {
+	if idx, ok := kase["index"].(float64); ok {
+		onlyKey, _ = kase["key"].(string)
+		RunCase(c, int(idx))
+		return
+	}
+	c.Note("C14 replay: case has no index")
+}
